@@ -352,7 +352,7 @@ def inline_locals(fn, expr: ast.expr, depth: int = 6) -> ast.expr:
     return T(depth).visit(copy.deepcopy(expr))
 
 
-def guards_of(node, fn) -> List[Tuple[str, bool]]:
+def guards_of(node, fn, include_exits: bool = True) -> List[Tuple[str, bool]]:
     """Guards under which `node` executes inside fn: (test source, polarity) for enclosing
     if/elif/else, ternaries and while tests, plus negations of earlier sibling
     ``if T: return/continue/raise/break`` exits in every enclosing block."""
@@ -375,7 +375,7 @@ def guards_of(node, fn) -> List[Tuple[str, bool]]:
         elif isinstance(p, ast.While) and cur in p.body:
             out.append((unparse(p.test), True))
         # earlier exits in the same block
-        for fld in ("body", "orelse", "finalbody"):
+        for fld in (("body", "orelse", "finalbody") if include_exits else ()):
             blk = getattr(p, fld, None)
             if isinstance(blk, list) and cur in blk:
                 for st in blk[: blk.index(cur)]:
